@@ -1,20 +1,26 @@
 """C08 Reactive flux: formula/orientation in both branches, diagonal reset,
-net flux, backward committor, reactive populations, inputs unmodified."""
+net flux, backward committor, reactive populations, inputs unmodified.
+
+The constructs are located by ROLE - "the value that is returned", "the tuple
+position of the helper's result that holds the committors call", "the in-place
+stores into the returned matrix" - and compared after expansion of temporaries
+(`xval`, an extension of FuncInfo.expand that also follows rebinding chains
+`x = f(x)` / `x op= v` of objects that are mutated in place elsewhere).  A
+recognised construct with different content is a VIOLATION; an unfamiliar
+shape is ANALYSIS-INCOMPLETE."""
 import ast
 
-from .. import symx
-from ..core import (AnalysisIncomplete, call_name, const_value, kwarg,
-                    names_loaded, params, target_names, u, walk_expr,
-                    walk_local)
-from ..patterns import (Cmp, assigns_to, calls_in, check_no_arg_mutation,
-                        conjuncts, finfo, returns_of, subscript_stores)
+from ..cfg import Assume
+from ..core import call_name, params, u, walk_expr
+from ..match import canon, classify, match_any
+from ..normal import MUTATING_METHODS, is_pure
+from ..patterns import (Cmp, calls_in, check_no_arg_mutation, conjuncts,
+                        finfo, returns_of, subscript_stores)
 from .C07 import d3_committors, d2_masking
 
 TP = 'enspara/tpt/tpt.py'
 CO = 'enspara/tpt/core.py'
-
-ROW_FORMS = ('[:, None]', '[:, np.newaxis]', '.reshape(-1, 1)', '.reshape((-1, 1))',
-             '.reshape((n_states, 1))', '.reshape(n_states, 1)')
+HELPER = '_get_data_from_tprob'
 
 EXPLANATION = (
     'Static decision of the structural necessary conditions of the reactive '
@@ -30,193 +36,895 @@ EXPLANATION = (
     'decided.')
 
 
-def row_factor(e):
-    """If e is <expr>[:, None] (or an accepted equivalent) return <expr>."""
-    txt = u(e)
-    if isinstance(e, ast.Subscript) and isinstance(e.slice, ast.Tuple) and len(e.slice.elts) == 2:
-        a, b = e.slice.elts
-        full = isinstance(a, ast.Slice) and a.lower is None and a.upper is None and a.step is None
-        if full and (const_value(b, 'x') is None and isinstance(b, ast.Constant) or u(b) in ('np.newaxis', 'None')):
-            return e.value
-    if isinstance(e, ast.Call) and isinstance(e.func, ast.Attribute) and e.func.attr == 'reshape':
-        a = [u(x) for x in e.args]
-        if a in (['-1', '1'], ['(-1, 1)'], ['(n_states, 1)'], ['n_states', '1']):
-            return e.func.value
+# ---------------------------------------------------------------------------
+# expansion of temporaries, including rebinding chains of mutated objects
+# (candidates for promotion to sa/cfg.py FuncInfo)
+
+def inplace_sites(fi, name):
+    """Statements that mutate the object bound to `name` in place.  Unlike
+    FuncInfo._mutated_in_place a plain rebinding `name = name.method(...)` only
+    counts if the method is a known mutator."""
+    out = []
+    for s in fi._mutated_in_place(name):
+        if isinstance(s, (ast.Assign, ast.AnnAssign)):
+            tg = s.targets if isinstance(s, ast.Assign) else [s.target]
+            plain = all(isinstance(t, ast.Name) or (isinstance(t, (ast.Tuple, ast.List)) and all(isinstance(e, ast.Name) for e in t.elts))
+                        for t in tg)
+            mutator = s.value is not None and any(
+                isinstance(c, ast.Call) and isinstance(c.func, ast.Attribute) and c.func.attr in MUTATING_METHODS
+                and isinstance(c.func.value, ast.Name) and c.func.value.id == name for c in ast.walk(s.value))
+            if plain and not mutator:
+                continue
+        out.append(s)
+    return out
+
+
+def def_stmt(fi, e):
+    """The statement to report for expression e: its single definition if e is
+    a name with one, else the statement it occurs in."""
+    if isinstance(e, ast.Name):
+        d = [s for s in fi.defs_of_use(e) if not isinstance(s, str)]
+        if len(d) == 1:
+            return d[0]
+    return fi.stmt(e) or e
+
+
+def carried_def(fi, name_node):
+    """The single definition `x = <pure expr>` / `x op= <pure expr>` that
+    reaches this use of x, provided neither x's object nor any operand of the
+    expression is rebound or mutated in place between the definition and the
+    use.  Unlike FuncInfo.temp_value this accepts (a) an expression that
+    mentions x itself (`x = x * w`: the operand is the previous value of x),
+    (b) augmented assignment to a name and (c) an object that is mutated in
+    place somewhere else in the function (only mutations that can execute
+    between the definition and the use matter).  Returns (site, expr) or
+    None."""
+    try:
+        defs = fi.defs_of_use(name_node)
+    except Exception:
+        return None
+    if len(defs) != 1:
+        return None
+    site = next(iter(defs))
+    name = name_node.id
+    if isinstance(site, ast.AugAssign):
+        if not (isinstance(site.target, ast.Name) and site.target.id == name):
+            return None
+        v = site.value
+    elif isinstance(site, (ast.Assign, ast.AnnAssign)):
+        v = fi.def_value(site, name)
+    else:
+        return None
+    if v is None or isinstance(v, ast.GeneratorExp) or not is_pure(v):
+        return None
+    use = fi.stmt(name_node)
+    if use is None:
+        return None
+    cfg = fi.cfg
+
+    def between(ms):
+        if ms is site:
+            return False
+        if ms is use:
+            # the use statement mutates after reading, unless it runs again
+            return use is not site and cfg.reachable(use, use, avoiding=[site])
+        return cfg.reachable(site, ms, avoiding=[use]) and cfg.reachable(ms, use, avoiding=[site])
+
+    if use is not site and any(between(ms) for ms in inplace_sites(fi, name)):
+        return None
+    for m in walk_expr(v):
+        if not (isinstance(m, ast.Name) and isinstance(m.ctx, ast.Load)) or m.id == name:
+            continue
+        if use is not site and fi.rd.defs_at(site, m.id) != fi.rd.defs_at(use, m.id):
+            return None
+        if any(between(ms) for ms in inplace_sites(fi, m.id)):
+            return None
+    return site, v
+
+
+def xval(fi, expr, stop=(), depth=12):
+    """Copy of expr with temporaries and rebinding chains replaced by their
+    definitions (see carried_def).  Every Name that is left carries `_orig`,
+    the source node it stands for (for reaching-definition queries)."""
+
+    def name_use(e, d):
+        if d > 0 and e.id not in stop:
+            v = fi.temp_value(e) if isinstance(e.ctx, ast.Load) else None
+            if v is not None:
+                return ex(v, d - 1)
+            r = carried_def(fi, e)
+            if r is not None:
+                site, v = r
+                if isinstance(site, ast.AugAssign):
+                    return ast.copy_location(ast.BinOp(left=name_use(site.target, d - 1), op=site.op,
+                                                       right=ex(v, d - 1)), site)
+                return ex(v, d - 1)
+        new = ast.copy_location(ast.Name(id=e.id, ctx=ast.Load()), e)
+        new._orig = e
+        return new
+
+    def ex(e, d):
+        if isinstance(e, ast.Name):
+            return name_use(e, d)
+        if not isinstance(e, ast.AST):
+            return e
+        if isinstance(e, (ast.expr_context, ast.operator, ast.unaryop, ast.boolop, ast.cmpop)):
+            return e
+        new = type(e)()
+        for f in e._fields:
+            val = getattr(e, f, None)
+            if isinstance(val, list):
+                setattr(new, f, [ex(x, d) for x in val])
+            elif isinstance(val, ast.AST):
+                setattr(new, f, ex(val, d))
+            else:
+                setattr(new, f, val)
+        for a in ('lineno', 'col_offset', 'end_lineno', 'end_col_offset'):
+            if hasattr(e, a):
+                setattr(new, a, getattr(e, a))
+        return new
+    return ex(expr, depth)
+
+
+def expand_info(fi, expr, stop=()):
+    """(canonical expanded tree, {leaf name: set of frozensets of definition
+    sites reaching the occurrences of that name})."""
+    raw = xval(fi, expr, stop)
+    leaf = {}
+    for n in ast.walk(raw):
+        if isinstance(n, ast.Name) and getattr(n, '_orig', None) is not None:
+            try:
+                d = frozenset(fi.defs_of_use(n._orig))
+            except Exception:
+                d = frozenset()
+            leaf.setdefault(n.id, set()).add(d)
+            del n._orig
+    return canon(raw), leaf
+
+
+def bind_args(call, names):
+    """{callee parameter: argument expression} for positional + keyword
+    arguments, or None (star-args, unknown keyword, duplicate)."""
+    if any(isinstance(a, ast.Starred) for a in call.args) or any(k.arg is None for k in call.keywords):
+        return None
+    if len(call.args) > len(names):
+        return None
+    out = dict(zip(names, call.args))
+    for k in call.keywords:
+        if k.arg in out or k.arg not in names:
+            return None
+        out[k.arg] = k.value
+    return out
+
+
+def is_param_use(fi, e, name=None):
+    """e is a Name that can only hold the (unmodified binding of the) parameter."""
+    return isinstance(e, ast.Name) and (name is None or e.id == name) and fi.defs_of_use(e) == {'PARAM'}
+
+
+def zero_const(e):
+    return isinstance(e, ast.Constant) and type(e.value) in (int, float) and e.value == 0
+
+
+def pass_through(ck, rule, mod, fn, fi, call, callee_params, F, n=4):
+    """The first n parameters of fn are handed to the callee's first n
+    parameters, position by position."""
+    own = params(fn)[:n]
+    b = bind_args(call, callee_params)
+    if b is None or len(own) < n or len(callee_params) < n:
+        ck.missing(rule, 'arguments of %s in %s cannot be bound to the callee parameters' % (u(call)[:120], F))
+        return False
+    good = True
+    for slot, mine in zip(callee_params[:n], own):
+        a = b.get(slot)
+        if a is None:
+            ck.bad(rule, mod, call, F, u(call)[:200], '%s does not pass its `%s` on as `%s`: the callee then works on a '
+                   'default instead of the caller\'s value' % (F, mine, slot))
+            good = False
+        elif is_param_use(fi, a, mine):
+            ck.ok(rule, mod, call, '%s: %s=%s' % (u(call)[:120], slot, mine), 'argument handed through unchanged')
+        elif isinstance(a, ast.Name) and a.id in own and is_param_use(fi, a):
+            ck.bad(rule, mod, call, F, u(call)[:200], 'parameter `%s` is passed where the callee expects `%s` (must be `%s`)' % (a.id, slot, mine))
+            good = False
+        else:
+            ck.missing(rule, 'argument %s=%s of %s in %s is not the plain parameter `%s`' % (slot, u(a)[:80], call_name(call), F, mine))
+            good = False
+    return good
+
+
+# ---------------------------------------------------------------------------
+# roles of the helper's result tuple
+
+def comm_def(fi, e):
+    """e is a Name whose single definition is directly `<x> = committors(...)`."""
+    if not isinstance(e, ast.Name):
+        return None
+    defs = fi.defs_of_use(e)
+    if len(defs) != 1:
+        return None
+    site = next(iter(defs))
+    if not isinstance(site, (ast.Assign, ast.AnnAssign)):
+        return None
+    v = fi.def_value(site, e.id)
+    if isinstance(v, ast.Call) and (call_name(v) or '').split('.')[-1] == 'committors':
+        return v
     return None
 
 
-def col_wrong(e):
-    """Is e a column-factor written with a leading new axis that is harmless
-    ([None, :]) - accepted - or something else?"""
-    if isinstance(e, ast.Subscript) and isinstance(e.slice, ast.Tuple) and len(e.slice.elts) == 2:
-        a, b = e.slice.elts
-        if (isinstance(a, ast.Constant) and a.value is None or u(a) == 'np.newaxis') and isinstance(b, ast.Slice):
-            return e.value
+SIZE_FORMS = ['len(_X)', '_X.shape[_I]', '_X.size', 'int(len(_X))', 'int(_X.shape[_I])']
+
+
+def helper_roles(mod):
+    """Which position of the tuple returned by _get_data_from_tprob holds the
+    populations / the number of states / q+ / q-, decided from what each
+    element IS (def-use), not from its name.  -> (roles, None) | (None, why)"""
+    fn = mod.func(HELPER)
+    fi = finfo(mod, fn)
+    P = params(fn)
+    if len(P) < 4:
+        return None, '%s has fewer than four parameters' % HELPER
+    pops = P[3]
+    r = returns_of(fn)
+    if len(r) != 1 or not isinstance(r[0].value, ast.Tuple) or len(r[0].value.elts) != 4:
+        return None, '%s does not end in a single `return <pi>, <n>, <q+>, <q->`' % HELPER
+    elts = r[0].value.elts
+    cand = {'pi': [], 'n': [], 'qf': [], 'qb': []}
+    for i, e in enumerate(elts):
+        ex, _ = expand_info(fi, e)
+        if comm_def(fi, e) is not None:
+            cand['qf'].append(i)
+        elif match_any(SIZE_FORMS, ex) is not None:
+            cand['n'].append(i)
+        elif any(c.split('.')[-1] == 'committors' for c in fi.derives_from(e)[1]):
+            cand['qb'].append(i)        # computed from the committors, but not the call itself
+        elif isinstance(e, ast.Name):
+            cand['pi'].append(i)
+        else:
+            cand['qb'].append(i)
+    if any(len(v) != 1 for v in cand.values()):
+        return None, 'roles of the four values returned by %s not recognised (%s): %s' % (
+            HELPER, ', '.join('%s@%s' % (k, v) for k, v in cand.items()), u(r[0])[:120])
+    roles = {k: v[0] for k, v in cand.items()}
+    roles.update(fn=fn, fi=fi, ret=r[0], elts=elts)
+    return roles, None
+
+
+def unpack_roles(ck, rule, mod, fn, fi, roles, F):
+    """The call of the helper in a public function: arguments handed through,
+    result unpacked into four names.  -> (stmt, {'pi':name, ...}) | None"""
+    calls = [c for c in calls_in(fn) if (call_name(c) or '').split('.')[-1] == HELPER]
+    if len(calls) != 1:
+        ck.missing(rule, 'exactly one call of %s in %s (found %d)' % (HELPER, F, len(calls)))
+        return None
+    call = calls[0]
+    st = fi.stmt(call)
+    if not (isinstance(st, ast.Assign) and st.value is call and len(st.targets) == 1 and isinstance(st.targets[0], ast.Tuple)
+            and len(st.targets[0].elts) == 4 and all(isinstance(e, ast.Name) for e in st.targets[0].elts)):
+        ck.missing(rule, 'result of %s is not unpacked into four names in %s' % (HELPER, F))
+        return None
+    pass_through(ck, rule, mod, fn, fi, call, params(roles['fn']), F)
+    tn = [e.id for e in st.targets[0].elts]
+    if len(set(tn)) != 4:
+        ck.bad(rule, mod, st, F, u(st)[:160], 'the four results of %s must be bound to four different names' % HELPER)
+        return None
+    names = {k: tn[roles[k]] for k in ('pi', 'n', 'qf', 'qb')}
+    ck.ok(rule, mod, st, u(st)[:160], 'helper result unpacked by position: pi=%(pi)s n=%(n)s q+=%(qf)s q-=%(qb)s' % names)
+    return st, names
+
+
+# ---------------------------------------------------------------------------
+# D1
+
+def is_issparse_of(e, tprob):
+    return isinstance(e, ast.Call) and (call_name(e) or '').split('.')[-1] in ('issparse', 'isspmatrix') \
+        and len(e.args) == 1 and not e.keywords and isinstance(e.args[0], ast.Name) and e.args[0].id == tprob
+
+
+def sparse_polarity(test, polarity, tprob):
+    """'sparse' / 'dense' if (test is polarity) fixes issparse(tprob), else None."""
+    cj = conjuncts(test, polarity)
+    for c in cj or []:
+        if isinstance(c, tuple) and c[0] == 'expr' and is_issparse_of(c[1], tprob):
+            return 'sparse' if c[2] else 'dense'
     return None
 
 
-def flatten_product(e, sparse=False):
-    """Return the list of factors of a product tree (dense: BinOp Mult;
-    sparse: chained .multiply calls)."""
-    if not sparse and isinstance(e, ast.BinOp) and isinstance(e.op, ast.Mult):
-        return flatten_product(e.left) + flatten_product(e.right)
-    if sparse and isinstance(e, ast.Call) and isinstance(e.func, ast.Attribute) and e.func.attr == 'multiply' and len(e.args) == 1:
-        return flatten_product(e.func.value, True) + [e.args[0]]
-    return [e]
+def branch_of(fi, site, tprob):
+    for a in fi.cfg.nodes:
+        if isinstance(a, Assume) and fi.cfg.dominates(a, site):
+            lab = sparse_polarity(a.test, a.polarity, tprob)
+            if lab is not None:
+                return lab
+    return None
 
 
-def d1_fluxes(ck, mod):
+def _full_slice(s):
+    return isinstance(s, ast.Slice) and s.lower is None and s.upper is None and s.step is None
+
+
+def _none(e):
+    return isinstance(e, ast.Constant) and e.value is None
+
+
+def _minus1_or(e, sizes):
+    return u(e) == '-1' or u(e) in sizes
+
+
+def oriented(e, sizes):
+    """('row', x) for x[:, None] / x.reshape(n, 1); ('col', x) for x[None, :]
+    / x[None] / x.reshape(1, n); else None.  (canonical trees)"""
+    if isinstance(e, ast.Subscript):
+        s = e.slice
+        if isinstance(s, ast.Tuple) and len(s.elts) == 2:
+            a, b = s.elts
+            if _full_slice(a) and _none(b):
+                return 'row', e.value
+            if _none(a) and _full_slice(b):
+                return 'col', e.value
+        if _none(s):
+            return 'col', e.value
+    if isinstance(e, ast.Call) and isinstance(e.func, ast.Attribute) and e.func.attr == 'reshape' and not e.keywords:
+        a = list(e.args)
+        if len(a) == 1 and isinstance(a[0], ast.Tuple):
+            a = list(a[0].elts)
+        if len(a) == 2:
+            if _minus1_or(a[0], sizes) and u(a[1]) == '1':
+                return 'row', e.func.value
+            if u(a[0]) == '1' and _minus1_or(a[1], sizes):
+                return 'col', e.func.value
+    return None
+
+
+CONVERSIONS = {'tolil', 'tocsr', 'tocsc', 'tocoo', 'tobsr', 'todok', 'todia', 'copy'}
+
+
+def product_factors(e, mode, tprob, sizes):
+    """Factor lists of an elementwise product tree.
+    -> (base, rows, cols, problems): occurrences of the matrix, factors
+    broadcast along rows (trailing new axis), along columns, and the
+    sub-expressions that are not an elementwise product of plain names."""
+    base, rows, cols, problems = [], [], [], []
+
+    def vec(x, out):
+        if isinstance(x, ast.BinOp) and isinstance(x.op, ast.Mult):
+            vec(x.left, out)
+            vec(x.right, out)
+        elif isinstance(x, ast.Call) and call_name(x) == 'np.multiply' and len(x.args) == 2 and not x.keywords:
+            vec(x.args[0], out)
+            vec(x.args[1], out)
+        elif isinstance(x, ast.Name):
+            out.append(x.id)
+        else:
+            problems.append(u(x)[:80])
+
+    def mat(x, mode):
+        if isinstance(x, ast.BinOp) and isinstance(x.op, ast.Mult):
+            if mode == 'sparse':
+                problems.append('`*` applied to the sparse container (matrix product for scipy.sparse matrices): %s' % u(x)[:80])
+                return
+            mat(x.left, mode)
+            mat(x.right, mode)
+            return
+        if isinstance(x, ast.Call) and isinstance(x.func, ast.Attribute) and not x.keywords:
+            cn = call_name(x)
+            if cn == 'np.multiply' and len(x.args) == 2 and mode == 'dense':
+                mat(x.args[0], mode)
+                mat(x.args[1], mode)
+                return
+            if cn == 'np.outer' and len(x.args) == 2:
+                vec(x.args[0], rows)
+                vec(x.args[1], cols)
+                return
+            if x.func.attr == 'multiply' and len(x.args) == 1 and mode == 'sparse':
+                mat(x.func.value, mode)
+                mat(x.args[0], 'dense')     # the operand of .multiply is a dense array
+                return
+            if x.func.attr in CONVERSIONS and not x.args and (mode == 'sparse' or x.func.attr == 'copy'):
+                mat(x.func.value, mode)
+                return
+        o = oriented(x, sizes)
+        if o is not None:
+            vec(o[1], rows if o[0] == 'row' else cols)
+            return
+        if isinstance(x, ast.Name) and x.id == tprob:
+            base.append(x.id)
+            return
+        vec(x, cols)            # a plain 1-d vector broadcasts along the last axis
+
+    mat(e, mode)
+    return base, rows, cols, problems
+
+
+def d1_fluxes(ck, mod, roles):
     rule = 'C08.D1.flux'
-    fn = mod.func('reactive_fluxes')
+    F = 'reactive_fluxes'
+    fn = mod.func(F)
     ck.analysed(mod, fn)
     fi = finfo(mod, fn)
     tprob = params(fn)[0]
-    ifs = [n for n in fn.body if isinstance(n, ast.If) and 'issparse' in u(n.test)]
-    if len(ifs) != 1:
-        ck.missing(rule, 'sparse/dense branch in reactive_fluxes')
+    if roles is None:
+        ck.missing(rule + '.roles', 'result roles of %s unknown: flux formula not checked' % HELPER)
         return
-    node = ifs[0]
-    # names from the helper unpack
-    unp = [s for s in walk_local(fn) if isinstance(s, ast.Assign) and isinstance(s.value, ast.Call)
-           and call_name(s.value) == '_get_data_from_tprob']
-    ok = len(unp) == 1 and isinstance(unp[0].targets[0], ast.Tuple) and len(unp[0].targets[0].elts) == 4
-    if not ok:
-        ck.missing(rule, 'unpacking of _get_data_from_tprob')
+    un = unpack_roles(ck, rule + '.roles', mod, fn, fi, roles, F)
+    if un is None:
         return
-    pi, n_states, qf, qb = [u(e) for e in unp[0].targets[0].elts]
-    helper = mod.func('_get_data_from_tprob')
-    r = returns_of(helper)
-    okh = len(r) == 1 and [u(e) for e in r[0].value.elts] == ['populations', 'n_states', 'forward_committors', 'reverse_committors']
-    ck.check(okh and 'forward' in qf and 'reverse' in qb and 'pop' in pi, rule + '.roles', mod, unp[0], 'reactive_fluxes', u(unp[0])[:160],
-             'helper returns (pi, n, q+, q-) and they are unpacked in that order',
-             '_get_data_from_tprob returns (populations, n_states, forward, reverse); unpacking them in another order swaps q+ and q-')
-    for label, body, sparse in (('sparse', node.body, True), ('dense', node.orelse, False)):
-        fl = [s for s in body if isinstance(s, ast.Assign) and u(s.targets[0]) == 'fluxes']
-        if not fl:
-            ck.bad(rule, mod, node, 'reactive_fluxes', label, '%s branch does not define fluxes' % label)
+    unp, nm = un
+    pi, n, qf, qb = nm['pi'], nm['n'], nm['qf'], nm['qb']
+    sizes = {n} | {'%s.shape[%d]' % (x, i) for x in (tprob,) for i in (0, 1)} | \
+        {t % v for v in (pi, qf, qb) for t in ('len(%s)', '%s.shape[0]', '%s.size')}
+    want = {tprob: frozenset(['PARAM']), pi: frozenset([unp]), qf: frozenset([unp]), qb: frozenset([unp])}
+    rets = returns_of(fn)
+    if not rets:
+        ck.missing(rule, 'return statement of %s' % F)
+        return
+    n_formulas = 0
+    labels = set()
+    for r in rets:
+        if not isinstance(r.value, ast.Name):
+            ck.missing(rule, '%s does not return a named matrix: %s' % (F, u(r)[:120]))
             continue
-        facs = flatten_product(fl[0].value, sparse)
-        if sparse and len(facs) >= 1 and not (isinstance(fl[0].value, ast.Call)):
-            facs = flatten_product(fl[0].value, False)
-        base = [f for f in facs if u(f) == tprob]
-        rowf = []
-        colf = []
-        other = []
-        for f in facs:
-            if u(f) == tprob:
+        M = r.value.id
+        sizes_m = sizes | {'%s.shape[0]' % M, '%s.shape[1]' % M}
+        sites = fi.defs_of_use(r.value)
+        pure_product = {}          # def site -> formula recognised as the plain product
+        for site in sites:
+            v = fi.def_value(site, M) if isinstance(site, (ast.Assign, ast.AnnAssign)) else None
+            if v is None:
+                ck.missing(rule, 'definition of the returned matrix `%s` in %s is not a plain assignment (%s)' % (
+                    M, F, site if isinstance(site, str) else u(site)[:100]))
                 continue
-            inner = row_factor(f)
-            if inner is not None:
-                rowf += flatten_product(inner)
-            elif col_wrong(f) is not None:
-                colf += flatten_product(col_wrong(f))
-            else:
-                colf.append(f)
-        rows = sorted(u(x) for x in rowf)
-        cols = sorted(u(x) for x in colf)
-        ok = len(base) == 1 and rows == sorted([pi, qb]) and cols == [qf]
-        ck.check(ok, rule, mod, fl[0], 'reactive_fluxes', '%s: %s' % (label, u(fl[0])[:200]),
-                 'f[i, j] = T[i, j] * (pi * q-)[i] * q+[j]: row factors %s, column factors %s' % (rows, cols),
-                 '%s branch: the flux must scale ROW i by pi[i]*q-[i] (factor with a trailing new axis, e.g. '
-                 '[:, None]) and COLUMN j by q+[j] (plain vector); found row factors %s and column factors %s '
-                 '- a transposed broadcast weights columns by the populations/backward committor' % (label, rows, cols))
-    # diagonal reset after the branch, before the return
-    dz = []
-    for s in fn.body:
-        if isinstance(s, ast.Assign) and isinstance(s.targets[0], ast.Subscript) and u(s.targets[0].value) == 'fluxes':
-            dz.append(s)
-        if isinstance(s, ast.Expr) and isinstance(s.value, ast.Call) and call_name(s.value) == 'np.fill_diagonal' \
-                and u(s.value.args[0]) == 'fluxes' and const_value(s.value.args[1]) == 0:
-            dz.append(s)
-        if isinstance(s, ast.Expr) and isinstance(s.value, ast.Call) and u(s.value.func) == 'fluxes.setdiag':
-            dz.append(s)
-    ok = len(dz) == 1
-    if ok and isinstance(dz[0], ast.Assign):
-        sl = dz[0].targets[0].slice
-        ok = u(sl) in ('(np.arange(%s), np.arange(%s))' % (n_states, n_states), 'np.diag_indices(%s)' % n_states,
-                       'np.diag_indices_from(fluxes)') and u(dz[0].value) in ('np.zeros(%s)' % n_states, '0', '0.0')
-    if ok:
-        r = returns_of(fn)
-        ok = fn.body.index(dz[0]) > fn.body.index(node) and all(fi.cfg.dominates(dz[0], x) for x in r)
-    ck.check(ok, rule + '.diagonal', mod, dz[0] if dz else fn, 'reactive_fluxes', u(dz[0]) if dz else 'diagonal reset',
-             'self-transitions carry no reactive flux: diagonal zeroed after the product on both branches',
-             'the diagonal of the flux matrix must be set to zero after the product and before the return, for both branches')
-    r = returns_of(fn)
-    ck.check(len(r) == 1 and u(r[0].value) == 'fluxes', rule, mod, r[0] if r else fn, 'reactive_fluxes', u(r[0]) if r else 'return', 'returns the flux matrix', 'must return fluxes')
+            tree, leaf = expand_info(fi, v)
+            lab = branch_of(fi, site, tprob)
+            alts = [(lab, tree)]
+            if lab is None and isinstance(tree, ast.IfExp):
+                l2 = sparse_polarity(tree.test, True, tprob)
+                if l2 is not None:
+                    alts = [(l2, tree.body), ('dense' if l2 == 'sparse' else 'sparse', tree.orelse)]
+            for lab, t in alts:
+                if lab is None:
+                    ck.missing(rule, 'definition `%s` of the returned matrix is not under a sparse.issparse(%s) decision' % (u(site)[:100], tprob))
+                    continue
+                labels.add(lab)
+                n_formulas += 1
+                base, rows, cols, problems = product_factors(t, lab, tprob, sizes_m)
+                construct = '%s: %s' % (lab, u(site)[:200])
+                known = set(want)
+                foreign = [x for x in base + rows + cols if x not in known]
+                stale = [x for x in set(base + rows + cols) if x in known and leaf.get(x) != {want[x]}]
+                if problems or foreign or stale:
+                    ck.missing(rule, 'flux product of the %s branch not recognised as an elementwise product of %s, %s, %s, %s: %s' % (
+                        lab, tprob, pi, qb, qf, '; '.join(problems + foreign + ['%s rebound' % x for x in stale])[:200]))
+                    continue
+                ok = base == [tprob] and sorted(rows) == sorted([pi, qb]) and cols == [qf]
+                ck.check(ok, rule, mod, site, F, construct,
+                         'f[i, j] = T[i, j] * (pi * q-)[i] * q+[j]: row factors %s, column factors %s' % (sorted(rows), cols),
+                         '%s branch: the flux must scale ROW i by pi[i]*q-[i] (factor with a trailing new axis, e.g. '
+                         '[:, None]) and COLUMN j by q+[j] (plain vector), each exactly once; found matrix factors %s, row factors %s and column factors %s '
+                         '- a transposed broadcast weights columns by the populations/backward committor' % (lab, base, sorted(rows), sorted(cols)))
+                if ok:
+                    pure_product[site] = True
+        d1_diagonal(ck, mod, fn, fi, r, M, sites, pure_product, sizes_m, {M, tprob, n, pi, qf, qb})
+    if labels and labels != {'sparse', 'dense'}:
+        ck.missing(rule, 'the matrix returned by %s is defined on the %s path only: sparse/dense decision not recognised' % (F, '/'.join(sorted(labels))))
+    ck.floor(rule, n_formulas, 2, 'flux products (sparse and dense)')
 
+
+def d1_diagonal(ck, mod, fn, fi, ret, M, sites, pure_product, sizes, scope):
+    rule = 'C08.D1.flux.diagonal'
+    F = 'reactive_fluxes'
+    IDX = ['(np.arange(_A), np.arange(_B))', '(range(_A), range(_B))', 'np.diag_indices(_A)', 'np.diag_indices_from(%s)' % M]
+    VAL = ['np.zeros(_S)', 'np.zeros(_S, dtype=_T)', 'np.zeros(_S, _T)', 'np.zeros(shape=_S)', 'np.zeros(shape=_S, dtype=_T)', '0', '0.0']
+    FLOATS = ('float', 'np.float64', 'np.double', "'float'", "'float64'", 'np.float_', 'np.float32', 'tprob.dtype', '%s.dtype' % M)
+
+    def sized(v):
+        """match whose size operands are not a length of the matrix -> near"""
+        if v[0] != 'match':
+            return v
+        for k, e in v[1].items():
+            if k == '_S' and isinstance(e, (ast.Tuple, ast.List)) and len(e.elts) == 1:
+                e = e.elts[0]           # shape (n,) is shape n
+            if k in ('_A', '_B', '_S') and u(e) not in sizes:
+                return ('near', 1, None)
+            if k == '_T' and u(e) not in FLOATS:
+                return ('far', 1, None)
+        return v
+
+    good, seen, tried = [], set(), []
+    recognised_all = True
+    for s, t in subscript_stores(fn, M):
+        seen.add(s)
+        if not isinstance(s, ast.Assign) or len(s.targets) != 1:
+            recognised_all = False
+            ck.missing(rule, 'in-place update of the flux matrix not recognised: %s' % u(s)[:120])
+            continue
+        vi = sized(classify(canon(xval(fi, t.slice, stop=(M,))), IDX, scope=scope))
+        vv = sized(classify(canon(xval(fi, s.value, stop=(M,))), VAL, scope=scope))
+        v = vi if vi[0] != 'match' else vv
+        if vi[0] == 'match' and vv[0] == 'match':
+            good.append(s)
+        elif 'far' in (vi[0], vv[0]):
+            recognised_all = False
+            v = vi if vi[0] == 'far' else vv
+        elif vi[0] == 'near':
+            v = vi
+        if v[0] == 'near':
+            tried.append(s)
+        ck.decide(v, rule, mod, s, F, u(s)[:200],
+                  'self-transitions carry no reactive flux: the diagonal (i, i), i < n_states, is set to zero',
+                  'the only store into the flux matrix must set exactly its diagonal (np.arange(n), np.arange(n)) to zero')
+    for s in fi.cfg.nodes:
+        c = s.value if isinstance(s, ast.Expr) and isinstance(s.value, ast.Call) else None
+        if c is None:
+            continue
+        if call_name(c) == 'np.fill_diagonal' and c.args and isinstance(c.args[0], ast.Name) and c.args[0].id == M:
+            seen.add(s)
+            b = bind_args(c, ['a', 'val', 'wrap'])
+            ok = b is not None and zero_const(canon(xval(fi, b['val'])) if 'val' in b else None)
+            ck.check(ok, rule, mod, s, F, u(s)[:200], 'diagonal filled with zero', 'np.fill_diagonal must write 0 on the diagonal of the flux matrix')
+            (good if ok else tried).append(s)
+        elif isinstance(c.func, ast.Attribute) and c.func.attr == 'setdiag' and isinstance(c.func.value, ast.Name) and c.func.value.id == M:
+            seen.add(s)
+            b = bind_args(c, ['values', 'k'])
+            ok = b is not None and 'values' in b and zero_const(canon(xval(fi, b['values']))) and ('k' not in b or zero_const(b['k']))
+            ck.check(ok, rule, mod, s, F, u(s)[:200], 'main diagonal set to zero', 'setdiag must write 0 on the MAIN diagonal (k=0) of the flux matrix')
+            (good if ok else tried).append(s)
+    for s in inplace_sites(fi, M):
+        if s not in seen and not (isinstance(s, ast.AugAssign) and isinstance(s.target, ast.Name)):
+            recognised_all = False
+            ck.missing(rule, 'in-place update of the flux matrix not recognised: %s' % u(s)[:120])
+    # every path product -> return passes through a diagonal reset
+    uncovered = []
+    for site in sites:
+        if isinstance(site, str):
+            continue
+        if not fi.cfg.reachable(site, ret, avoiding=good):
+            ck.ok(rule, mod, site, 'reset after: %s' % u(site)[:120], 'diagonal zeroed after the product and before the return')
+        elif not fi.cfg.reachable(site, ret, avoiding=good + tried):
+            pass                    # the store on this path was reported above
+        elif recognised_all and pure_product.get(site):
+            uncovered.append(site)
+        else:
+            ck.missing(rule, 'no recognised diagonal reset between `%s` and the return' % u(site)[:100])
+    if uncovered:
+        ck.bad(rule, mod, good[0] if good else ret, F, u(good[0])[:200] if good else 'diagonal reset',
+               'the diagonal of the flux matrix must be set to zero after the product and before the return, for both branches: '
+               'the product %s reaches the return without passing a diagonal reset' % ' / '.join('`%s`' % u(x)[:100] for x in uncovered))
+
+
+# ---------------------------------------------------------------------------
+# D2
 
 def d2_net(ck, mod):
     rule = 'C08.D2.net-flux'
-    fn = mod.func('net_fluxes')
+    F = 'net_fluxes'
+    fn = mod.func(F)
     ck.analysed(mod, fn)
     fi = finfo(mod, fn)
-    fl = [s for s in walk_local(fn) if isinstance(s, ast.Assign) and isinstance(s.value, ast.Call)
-          and call_name(s.value) == 'reactive_fluxes']
-    ok = len(fl) == 1 and [u(a) for a in fl[0].value.args] == params(fn)[:3] and u(kwarg(fl[0].value, 'populations')) == params(fn)[3]
-    ck.check(ok, rule, mod, fl[0] if fl else fn, 'net_fluxes', u(fl[0]) if fl else 'reactive_fluxes', 'built from the reactive fluxes of the same arguments',
-             'net_fluxes must call reactive_fluxes(tprob, sources, sinks, populations=populations)')
-    f = u(fl[0].targets[0]) if fl else 'fluxes'
-    nf = [s for s in walk_local(fn) if isinstance(s, ast.Assign) and isinstance(s.value, ast.BinOp) and isinstance(s.value.op, ast.Sub)]
-    ok = len(nf) == 1 and u(nf[0].value.left) == f and u(nf[0].value.right) == '%s.T' % f
-    ck.check(ok, rule, mod, nf[0] if nf else fn, 'net_fluxes', u(nf[0]) if nf else 'f - f.T', 'net = f - f^T of the same f',
-             'net flux must be fluxes - fluxes.T (f^T - f gives the reverse direction)')
-    nname = u(nf[0].targets[0]) if nf else 'net_fluxes'
-    clip = [s for s in walk_local(fn) if isinstance(s, ast.Assign) and isinstance(s.targets[0], ast.Subscript)
-            and u(s.targets[0].value) == nname]
-    ok = len(clip) == 1 and u(clip[0].targets[0].slice) in ('np.where(%s < 0)' % nname, '%s < 0' % nname) and const_value(clip[0].value) == 0
-    alt = [s for s in assigns_to(fn, nname) if isinstance(s, ast.Assign) and u(s.value) in (
-        'np.maximum(%s, 0)' % nname, '%s.clip(min=0)' % nname, 'np.clip(%s, 0, None)' % nname, 'np.where(%s < 0, 0, %s)' % (nname, nname))]
-    ck.check(ok or len(alt) == 1, rule + '.positive-part', mod, (clip or alt or [fn])[0], 'net_fluxes', u((clip or alt)[0]) if (clip or alt) else 'positive part',
-             'negative entries set to zero (at most one direction per pair carries net flux)',
-             'the net flux must keep only the positive part of f - f^T')
-    r = returns_of(fn)
-    ck.check(len(r) == 1 and u(r[0].value) == nname, rule, mod, r[0] if r else fn, 'net_fluxes', u(r[0]) if r else '?', 'returns the clipped matrix', 'must return the net flux matrix')
+    calls = [c for c in calls_in(fn) if (call_name(c) or '').split('.')[-1] == 'reactive_fluxes']
+    if len(calls) != 1:
+        ck.missing(rule, 'exactly one call of reactive_fluxes in net_fluxes (found %d)' % len(calls))
+        return
+    call = calls[0]
+    cst = fi.stmt(call)
+    pass_through(ck, rule, mod, fn, fi, call, params(mod.func('reactive_fluxes')), F)
+    if not (isinstance(cst, ast.Assign) and cst.value is call and len(cst.targets) == 1 and isinstance(cst.targets[0], ast.Name)):
+        ck.missing(rule, 'result of reactive_fluxes is not bound to a name in net_fluxes')
+        return
+    f = cst.targets[0].id
+    DIFF = ['%s - %s.T' % (f, f), '%s - %s.transpose()' % (f, f), '%s - np.transpose(%s)' % (f, f), '%s - %s.transpose(1, 0)' % (f, f),
+            '%s - %s.swapaxes(0, 1)' % (f, f), 'np.subtract(%s, %s.T)' % (f, f)]
+
+    def diff(tree, leaf, node):
+        v = classify(tree, DIFF, scope={f})
+        if v[0] == 'match' and leaf.get(f) != {frozenset([cst])}:
+            v = ('far', 0, None)
+        return ck.decide(v, rule, mod, node, F, u(node)[:200], 'net = f - f^T of the same f',
+                         'net flux must be fluxes - fluxes.T of the reactive fluxes (f^T - f gives the reverse direction)')
+
+    rets = returns_of(fn)
+    if not rets:
+        ck.missing(rule, 'return statement of net_fluxes')
+    for r in rets:
+        if r.value is None:
+            ck.missing(rule, 'net_fluxes returns nothing')
+            continue
+        tree, leaf = expand_info(fi, r.value)
+        if isinstance(tree, ast.Name) and isinstance(r.value, ast.Name):
+            # a named matrix that is updated in place before the return
+            N = tree.id
+            sites = fi.defs_of_use(r.value)
+            site = next(iter(sites)) if len(sites) == 1 else None
+            v = fi.def_value(site, N) if isinstance(site, (ast.Assign, ast.AnnAssign)) else None
+            if v is None:
+                ck.missing(rule, 'single plain definition of the returned matrix `%s`' % N)
+                continue
+            dtree, dleaf = expand_info(fi, v)
+            inner = functional_positive_part(dtree)
+            if inner is not None:
+                diff(inner, dleaf, site)
+                ck.ok(rule + '.positive-part', mod, site, u(site)[:200], 'negative entries set to zero')
+                continue
+            diff(dtree, dleaf, site)
+            d2_clip(ck, mod, fn, fi, r, N, site)
+        else:
+            inner = functional_positive_part(tree)
+            if inner is None:
+                v = classify(tree, DIFF, scope={f})
+                if v[0] == 'match':
+                    ck.bad(rule + '.positive-part', mod, r, F, u(r)[:200], 'the net flux must keep only the positive part of f - f^T: the difference is returned unclipped')
+                else:
+                    ck.missing(rule, 'value returned by net_fluxes not recognised: %s' % u(tree)[:120])
+                continue
+            diff(inner, leaf, r)
+            ck.ok(rule + '.positive-part', mod, r, u(r)[:200], 'negative entries set to zero')
+    ck.floor(rule + '.positive-part', ck.rule_counts.get(rule + '.positive-part', 0), 1, 'positive-part step')
 
 
-def d3_helper(ck, mod):
+def functional_positive_part(tree):
+    """_D if tree is max(_D, 0) written functionally."""
+    forms = ['np.maximum(_D, _Z)', 'np.maximum(_Z, _D)', '_D.clip(min=_Z)', '_D.clip(_Z, None)', '_D.clip(_Z)', 'np.clip(_D, _Z, None)',
+             'np.clip(_D, a_min=_Z, a_max=None)', 'np.where(_D < _Z, _Z, _D)', 'np.where(_D <= _Z, _Z, _D)', 'np.where(_Z < _D, _D, _Z)',
+             'np.where(_Z <= _D, _D, _Z)']
+    for p in forms:
+        b = match_any([p], tree)
+        if b is not None and zero_const(b['_Z']):
+            return b['_D']
+    return None
+
+
+def d2_clip(ck, mod, fn, fi, ret, N, site):
+    rule = 'C08.D2.net-flux.positive-part'
+    F = 'net_fluxes'
+    IDX = ['np.where(%s < _Z)' % N, '%s < _Z' % N, 'np.nonzero(%s < _Z)' % N, 'np.where(%s <= _Z)' % N, '%s <= _Z' % N, 'np.nonzero(%s <= _Z)' % N]
+    good, seen, all_rec, tried = [], set(), True, []
+    for s, t in subscript_stores(fn, N):
+        seen.add(s)
+        if not isinstance(s, ast.Assign) or len(s.targets) != 1:
+            all_rec = False
+            ck.missing(rule, 'in-place update of the net flux matrix not recognised: %s' % u(s)[:120])
+            continue
+        vi = classify(canon(xval(fi, t.slice, stop=(N,))), IDX, scope={N})
+        if vi[0] == 'match' and not zero_const(vi[1]['_Z']):
+            vi = ('near', 1, None)
+        val = canon(xval(fi, s.value, stop=(N,)))
+        if vi[0] == 'match':
+            vv = ('match', {}) if zero_const(val) else classify(val, ['0'], scope={N})
+        else:
+            vv = ('match', {})
+        v = vi if vi[0] != 'match' else vv
+        if v[0] == 'match':
+            good.append(s)
+        elif v[0] == 'far':
+            all_rec = False
+        else:
+            tried.append(s)
+        ck.decide(v, rule, mod, s, F, u(s)[:200], 'negative entries set to zero (at most one direction per pair carries net flux)',
+                  'the net flux must keep only the positive part of f - f^T: exactly the entries < 0 are set to 0 (a tolerance test also '
+                  'erases genuine small positive net fluxes)')
+    for s in inplace_sites(fi, N):
+        if s not in seen:
+            all_rec = False
+            ck.missing(rule, 'in-place update of the net flux matrix not recognised: %s' % u(s)[:120])
+    if not fi.cfg.reachable(site, ret, avoiding=good):
+        if good:
+            ck.ok(rule, mod, good[0], 'clip before return: %s' % u(good[0])[:120], 'every path from f - f^T to the return clips the negatives')
+    elif not fi.cfg.reachable(site, ret, avoiding=good + tried):
+        pass                        # the store on this path was reported above
+    elif all_rec:
+        ck.bad(rule, mod, good[0] if good else ret, F, u(good[0])[:200] if good else 'positive part',
+               'the net flux must keep only the positive part of f - f^T: the difference reaches the return without the negatives being set to zero')
+    else:
+        ck.missing(rule, 'positive-part step between f - f^T and the return not recognised')
+
+
+# ---------------------------------------------------------------------------
+# D3
+
+def index_set_forms(p):
+    out = [p]
+    for src in ('np.array(%s)' % p, 'np.asarray(%s)' % p, 'np.array(%s, dtype=int)' % p, 'np.asarray(%s, dtype=int)' % p, 'np.atleast_1d(%s)' % p):
+        out.append(src)
+        for sfx in ('.reshape((-1,))', '.reshape(-1)', '.reshape([-1])', '.flatten()', '.ravel()'):
+            out.append(src + sfx)
+    return out
+
+
+def d3_helper(ck, mod, roles, why):
     rule = 'C08.D3.committors'
-    fn = mod.func('_get_data_from_tprob')
+    fn = mod.func(HELPER)
     ck.analysed(mod, fn)
+    fi = finfo(mod, fn)
+    if roles is None:
+        ck.missing(rule, why)
+        return
     tprob, sources, sinks, pops = params(fn)[:4]
-    cm = [s for s in walk_local(fn) if isinstance(s, ast.Assign) and isinstance(s.value, ast.Call) and call_name(s.value) == 'committors']
-    ok = len(cm) == 1 and [u(a) for a in cm[0].value.args] == [tprob, sources, sinks]
-    ck.check(ok, rule, mod, cm[0] if cm else fn, '_get_data_from_tprob', u(cm[0]) if cm else 'committors', 'q+ = committors(tprob, sources, sinks)',
-             'forward committors must be committors(tprob, sources, sinks) in that argument order')
-    qf = u(cm[0].targets[0]) if cm else 'forward_committors'
-    rv = [s for s in walk_local(fn) if isinstance(s, ast.Assign) and u(s.targets[0]).startswith('reverse')]
-    ok = len(rv) == 1 and u(rv[0].value) in ('1 - %s' % qf, '1.0 - %s' % qf)
-    ck.check(ok, rule, mod, rv[0] if rv else fn, '_get_data_from_tprob', u(rv[0]) if rv else 'q-', 'q- = 1 - q+ (equilibrium)', 'backward committor must be 1 - forward committor')
-    pp = [s for s in assigns_to(fn, pops) if isinstance(s, ast.Assign)]
-    ok = len(pp) == 1 and u(pp[0].value) == 'eq_probs(%s)' % tprob
-    g = mod.parent.get(pp[0]) if pp else None
-    ok = ok and isinstance(g, ast.If) and u(g.test) == '%s is None' % pops
-    ck.check(ok, rule + '.populations', mod, pp[0] if pp else fn, '_get_data_from_tprob', u(pp[0]) if pp else pops,
-             'populations computed from tprob only when not supplied', 'populations must default to eq_probs(tprob) iff None')
-    fr = mod.func('reactive_populations')
-    ck.analysed(mod, fr)
-    dn = [s for s in walk_local(fr) if isinstance(s, ast.Assign) and u(s.targets[0]) == 'densities']
-    ok = False
-    if len(dn) == 1:
-        facs = sorted(u(x) for x in flatten_product(dn[0].value))
-        ok = facs == sorted(['populations', 'forward_committors', 'reverse_committors'])
-    ck.check(ok, 'C08.D3.reactive-populations', mod, dn[0] if dn else fr, 'reactive_populations', u(dn[0]) if dn else 'densities',
-             'm_i = pi_i q+_i q-_i', 'reactive densities must be populations * forward * reverse committors')
-    r = returns_of(fr)
-    res = fi_resolve(finfo(mod, fr), r[0].value) if r else None
-    ok = res is not None and u(res) in ('densities / np.sum(densities)', 'densities / densities.sum()')
-    ck.check(ok, 'C08.D3.reactive-populations', mod, r[0] if r else fr, 'reactive_populations', u(res) if res is not None else '?',
-             'normalised by its own sum (probability vector)', 'reactive populations must be densities / sum(densities)')
+    elts = roles['elts']
+    qfe, qbe, pie, ne = (elts[roles[k]] for k in ('qf', 'qb', 'pi', 'n'))
+    # --- q+ = committors(tprob, sources, sinks)
+    call = comm_def(fi, qfe)
+    cst = fi.stmt(call)
+    try:
+        cpar = params(ck.repo.mod(CO).func('committors'))[:3]
+    except Exception:
+        cpar = ['tprob', 'sources', 'sinks']
+    b = bind_args(call, cpar)
+    if b is None or len(b) != 3:
+        ck.missing(rule, 'arguments of %s cannot be bound to committors(%s)' % (u(call)[:100], ', '.join(cpar)))
+    else:
+        a = b[cpar[0]]
+        if is_param_use(fi, a, tprob):
+            ck.ok(rule, mod, cst, '%s: %s' % (u(cst)[:120], cpar[0]), 'q+ from the same transition matrix')
+        else:
+            v = classify(canon(xval(fi, a)), [tprob], scope={tprob})
+            ck.decide(v if v[0] != 'match' else 'far', rule, mod, cst, HELPER, u(cst)[:200], '', 'forward committors must be committors(tprob, sources, sinks) of the unmodified tprob')
+        for slot, mine, other in ((cpar[1], sources, sinks), (cpar[2], sinks, sources)):
+            a = b[slot]
+            origin = {p for p in fi.derives_from(a)[0] if not p.startswith('<free>')}
+            if origin == {other}:
+                ck.bad(rule, mod, cst, HELPER, u(cst)[:200], 'forward committors must be committors(tprob, sources, sinks) in that argument order: '
+                       '`%s` is handed the %s (q+ then is the committor of the reverse reaction)' % (slot, other))
+                continue
+            if origin != {mine}:
+                ck.missing(rule, 'argument %s=%s of the committors call does not derive from `%s` alone' % (slot, u(a)[:80], mine))
+                continue
+            tree, leaf = expand_info(fi, a)
+            v = classify(tree, index_set_forms(mine), scope={mine})
+            if v[0] == 'match' and leaf.get(mine) != {frozenset(['PARAM'])}:
+                v = ('far', 0, None)
+            ck.decide(v, rule, mod, cst, HELPER, '%s: %s=%s' % (u(cst)[:120], slot, u(tree)[:60]), 'q+ = committors(tprob, sources, sinks)',
+                      'the %s handed to committors must be the caller\'s %s (flattened), not another function of them' % (mine, mine))
+    # --- q- = 1 - q+
+    Q = qfe.id
+    tree, leaf = expand_info(fi, qbe)
+    v = classify(tree, ['1 - %s' % Q, '1.0 - %s' % Q, '-%s + 1' % Q, '-%s + 1.0' % Q, 'np.subtract(1, %s)' % Q, 'np.ones_like(%s) - %s' % (Q, Q)], scope={Q})
+    if v[0] == 'match' and any(d != fi.defs_of_use(qfe) for d in leaf.get(Q, ())):
+        v = ('far', 0, None)
+    ck.decide(v, rule, mod, def_stmt(fi, qbe), HELPER, 'q- = %s' % u(tree)[:160], 'q- = 1 - q+ (equilibrium)',
+              'backward committor must be 1 - forward committor (of the same committors call)')
+    # --- n = len(pi)
+    tree, leaf = expand_info(fi, ne)
+    P = pie.id
+    v = classify(tree, ['len(%s)' % P, '%s.shape[0]' % P, '%s.size' % P, '%s.shape[0]' % tprob, '%s.shape[1]' % tprob, 'int(len(%s))' % P], scope={P, tprob})
+    if v[0] == 'match' and any(d != fi.defs_of_use(pie) for d in leaf.get(P, ())):
+        v = ('far', 0, None)
+    ck.decide(v, 'C08.D3.n-states', mod, def_stmt(fi, ne), HELPER, 'n = %s' % u(tree)[:120], 'number of states = length of the populations', 'n_states must be the number of states (len(populations))')
+    d3_populations(ck, mod, fn, fi, pie, tprob, pops)
 
 
-def fi_resolve(fi, e):
-    return fi.resolve(e) if isinstance(e, ast.Name) else e
+def d3_populations(ck, mod, fn, fi, pie, tprob, pops):
+    rule = 'C08.D3.committors.populations'
+    BAD = 'populations must default to eq_probs(tprob) iff None'
+
+    def eq_probs_of_tprob(v, node):
+        tree = canon(xval(fi, v))
+        if not (isinstance(tree, ast.Call) and (call_name(tree) or '').split('.')[-1] == 'eq_probs'):
+            ck.missing(rule, 'default of the populations is not a call of eq_probs: %s' % u(tree)[:120])
+            return
+        b = bind_args(tree, ['T', 'maxiter', 'tol'])
+        if b is None or 'T' not in b:
+            ck.missing(rule, 'arguments of %s' % u(tree)[:120])
+            return
+        if set(b) - {'T'}:
+            ck.missing(rule, 'eq_probs called with non-default solver settings: %s' % u(tree)[:120])
+            return
+        vv = classify(b['T'], [tprob, '%s.copy()' % tprob], scope={tprob})
+        ck.decide(vv, rule, mod, node, HELPER, u(node)[:200], 'populations computed from tprob only when not supplied',
+                  BAD + ': eq_probs takes the row-stochastic transition matrix itself (it extracts the LEFT eigenvector internally)')
+
+    def none_test(test, polarity):
+        cj = conjuncts(test, polarity)
+        if cj is None or len(cj) != 1 or not isinstance(cj[0], Cmp):
+            return 0
+        c = cj[0]
+        for a, b in ((c.lhs, c.rhs), (c.rhs, c.lhs)):
+            if isinstance(a, ast.Name) and a.id == pops and isinstance(b, ast.Constant) and b.value is None and is_param_use(fi, a):
+                return 1 if c.op is ast.Is else -1 if c.op is ast.IsNot else 0
+        return 0
+
+    if not isinstance(pie, ast.Name):
+        ck.missing(rule, 'returned populations are not a name')
+        return
+    sites = fi.defs_of_use(pie)
+    asg = [s for s in sites if not isinstance(s, str)]
+    if 'UNBOUND' in sites or len(asg) != 1 or not isinstance(asg[0], ast.Assign) or fi.def_value(asg[0], pie.id) is None:
+        ck.missing(rule, 'definitions of the returned populations not recognised (%d assignment(s)%s)' % (len(asg), ', parameter' if 'PARAM' in sites else ''))
+        return
+    s = asg[0]
+    v = fi.def_value(s, pie.id)
+    if 'PARAM' in sites:
+        if pie.id != pops:
+            ck.missing(rule, 'returned populations `%s` are not the parameter `%s`' % (pie.id, pops))
+            return
+        guards = [a for a in fi.cfg.nodes if isinstance(a, Assume) and fi.cfg.dominates(a, s)]
+        if len(guards) != 1:
+            ck.missing(rule, 'the defaulting assignment `%s` is not under exactly one condition' % u(s)[:100])
+            return
+        t = none_test(guards[0].test, guards[0].polarity)
+        if t == 0:
+            ck.missing(rule, 'condition of the defaulting assignment not recognised: %s' % u(guards[0].test)[:100])
+            return
+        if t < 0:
+            ck.bad(rule, mod, s, HELPER, u(s)[:200], BAD + ': the assignment runs when populations were SUPPLIED and replaces them')
+            return
+        eq_probs_of_tprob(v, s)
+        return
+    # a single unconditional definition: must be a conditional expression
+    tree = v
+    if isinstance(tree, ast.IfExp):
+        t = none_test(tree.test, True)
+        if t == 0:
+            ck.missing(rule, 'condition of the populations default not recognised: %s' % u(tree.test)[:100])
+            return
+        none_val, other = (tree.body, tree.orelse) if t > 0 else (tree.orelse, tree.body)
+        if not is_param_use(fi, other, pops):
+            ex = canon(xval(fi, other))
+            if isinstance(ex, ast.Call) and (call_name(ex) or '').split('.')[-1] == 'eq_probs':
+                ck.bad(rule, mod, s, HELPER, u(s)[:200], BAD + ': supplied populations are replaced by eq_probs')
+            else:
+                ck.missing(rule, 'value kept when populations are supplied is not the parameter itself: %s' % u(other)[:100])
+            return
+        eq_probs_of_tprob(none_val, s)
+        return
+    ex = canon(xval(fi, tree))
+    if isinstance(ex, ast.Call) and (call_name(ex) or '').split('.')[-1] == 'eq_probs':
+        ck.bad(rule, mod, s, HELPER, u(s)[:200], BAD + ': the caller\'s populations are overwritten unconditionally')
+    else:
+        ck.missing(rule, 'definition of the populations not recognised: %s' % u(s)[:120])
+
+
+def d3_reactive_populations(ck, mod, roles):
+    rule = 'C08.D3.reactive-populations'
+    F = 'reactive_populations'
+    fn = mod.func(F)
+    ck.analysed(mod, fn)
+    fi = finfo(mod, fn)
+    if roles is None:
+        ck.missing(rule, 'result roles of %s unknown: reactive populations not checked' % HELPER)
+        return
+    un = unpack_roles(ck, rule, mod, fn, fi, roles, F)
+    if un is None:
+        return
+    unp, nm = un
+    pi, qf, qb = nm['pi'], nm['qf'], nm['qb']
+    want = sorted([pi, qf, qb])
+    rets = returns_of(fn)
+    if not rets:
+        ck.missing(rule, 'return statement of %s' % F)
+    n = 0
+    for r in rets:
+        if r.value is None:
+            ck.missing(rule, '%s returns nothing' % F)
+            continue
+        tree, leaf = expand_info(fi, r.value)
+        b = match_any(['_A / _B.sum()', '_A / sum(_B)', '_A / _B.sum(axis=0)', '_A / _B.sum(0)', 'np.divide(_A, _B.sum())'], tree)
+        parts = None
+        if b is not None:
+            parts = []
+            for k in ('_A', '_B'):
+                base, rows, cols, problems = product_factors(b[k], 'dense', '', set())
+                parts.append(None if (problems or base or rows) else sorted(cols))
+        stale = [x for x in (pi, qf, qb) if x in leaf and leaf[x] != {frozenset([unp])}]
+        if b is None or None in parts or stale or any(set(p) - set(want) for p in parts):
+            v = classify(tree, ['_A / _A.sum()'], scope=set(want))
+            if v[0] == 'match' or stale:
+                v = ('far', 0, None)
+            ck.decide(v, rule, mod, r, F, u(tree)[:200], '', 'reactive populations must be pi*q+*q- divided by the sum of pi*q+*q-')
+            continue
+        n += 1
+        ck.check(parts[0] == want, rule, mod, r, F, 'densities = %s' % u(b['_A'])[:160], 'm_i = pi_i q+_i q-_i',
+                 'reactive densities must be populations * forward * reverse committors (each once); found factors %s' % parts[0])
+        ck.check(parts[1] == parts[0], rule, mod, r, F, 'normalisation = sum(%s)' % u(b['_B'])[:160], 'normalised by its own sum (probability vector)',
+                 'reactive populations must be densities / sum(densities): numerator factors %s, summed factors %s' % (parts[0], parts[1]))
+    ck.floor(rule, n, 1, 'normalised reactive densities')
 
 
 def check(ck):
     mod = ck.repo.mod(TP)
-    d1_fluxes(ck, mod)
+    roles, why = helper_roles(mod)
+    d1_fluxes(ck, mod, roles)
     d2_net(ck, mod)
-    d3_helper(ck, mod)
+    d3_helper(ck, mod, roles, why)
+    d3_reactive_populations(ck, mod, roles)
     check_no_arg_mutation(ck, 'C08.D4.inputs-unmodified', [
         (TP, 'reactive_fluxes'), (TP, 'net_fluxes'), (TP, 'reactive_populations'),
         (TP, '_get_data_from_tprob'), (CO, 'committors')])
